@@ -87,6 +87,7 @@ func fromReflect(rt reflect.Type, seen map[reflect.Type]*T) *T {
 			return t
 		}
 		t.K = KSlice
+		seen[rt] = t
 		t.Elem = fromReflect(rt.Elem(), seen)
 	case reflect.Array:
 		t.K = KArray
@@ -98,6 +99,7 @@ func fromReflect(rt reflect.Type, seen map[reflect.Type]*T) *T {
 		} else {
 			t.K = KMapIntKey
 		}
+		seen[rt] = t
 		t.Elem = fromReflect(rt.Elem(), seen)
 	case reflect.Pointer:
 		t.K = KPtr
